@@ -687,8 +687,11 @@ class Field(Criterion, JSON):
 
     def __hash__(self) -> int:
         # Term.__hash__ hashes the rendering, which omits an un-aliased table: columns of the same name in
-        # different tables would collapse into one element of the sets built by fields_()
-        return hash((self.name, self.alias, self.table))
+        # different tables would collapse into one element of the sets built by fields_(). The kind of the
+        # source is part of the hash: a table-less field and a field of an un-aliased subquery (whose hash is
+        # that of its alias, None) are different references
+        table = None if self.table is None else (type(self.table).__name__, self.table)
+        return hash((self.name, self.alias, table))
 
     @builder
     def replace_table(  # type:ignore[return]
